@@ -167,6 +167,9 @@ FIXED_CALLS = [
     ("add", "(a b) c, (a b) -> (a b) c", [[6, 2], [6]], {}),
     ("add", "a (b + c), (b + c) -> a (b + c)", [[2, 5], [5]], {}),
     ("dot", "a (b c), (b c) d -> a d", [[2, 6], [6, 5]], {}),
+    # D21 (work package cse2): overlapping slice candidates `a 1` / `1 d`
+    ("solve_shapes", "(a 1 d), (1 d) c", [[6], [3, 2]], {}),
+    ("matches", "(a 1 d), (1 d) c, (a 1)", [[12], [2, 2], [4]], {}),
 ]
 
 
@@ -228,12 +231,16 @@ def gen_arg(rng, S):
 # not to hold on the pinned tree, because einx itself is wrong there (docs/wp/cse.md, section (e)):
 #  1. a user axis `cse...` expands to `cse.0`, `cse.1` and collides with the fresh axis `cse.0`;
 #  2. the root-level filter of `cse` looks only at the first exprlist of a candidate, so `[c d]` at root level is
-#     replaced by one axis and stage 3 fails its `ndim` assertion.
+#     replaced by one axis and stage 3 fails its `ndim` assertion;
+#  3. (D21) two slice candidates overlap in a node without a shared name (`a 1` and `1 d` in `a 1 d`): `d` is copied
+#     in one place and replaced as part of `1 d` in another.
 # Any *other* real call that does not meet the side conditions is a broken tie (premise of the theorem not established).
 # The value is the list of parts of `cseCheckReduced` that fail (exactly the one that is false for the real code).
 DOCUMENTED_NOT_MET = {
     ("(a b) cse.0 cse.1, (a b), , 6 2 3, 6, None", True, False): ["fresh_ok"],          # D19
     ("a ([c d]) [c d], a (), 4 6 2 3, None", False, True): ["root_dims_ok"],           # D20
+    ("(a 1 d), (1 d) c, , 6, 3 2, None", True, False): ["copied_ok"],                   # D21 (must succeed, raises)
+    ("(a 1 d), (1 d) c, (a 1), , 12, 2 2, 4, None", True, False): ["copied_ok"],        # D21 (must fail, accepted)
 }
 
 
@@ -392,14 +399,14 @@ def run_cse_trees(ctx, w, S, M):
             ctx.tie_broken("model:cse_filter_ok", f"a replacement of the model did not pass the filter for cse({render_forest(rec['roots'])!r}) [{src}]")
         # work package cse2: the parts of `cseCheckReduced` (Solve/CseCheck2.lean).  `reduced -> check` is proved
         # (`cseCheck_of_reduced`) for runs that do not raise; its decidable form must hold on every input whatsoever.
-        parts = [k for k in ("input_ok", "fresh_ok", "root_dims_ok", "overlap_ok") if not c[k]]
+        parts = [k for k in ("input_ok", "fresh_ok", "root_dims_ok", "copied_ok", "shared_ok") if not c[k]]
         ctx.count(f"cse_reduced:{src}:" + ("ok" if c["reduced"] else "not-met:" + "+".join(parts)))
         if real["ok"] and c["reduced"] and not c["check"]:
             ctx.tie_broken("model:cse_reduced", f"cseCheckReduced holds but cseCheck does not for cse({render_forest(rec['roots'])!r}) [{src}]")
-        if src == "captured" and not (c["input_ok"] and c["overlap_ok"]):
-            # `inputOK` is a fact about the output of stage 2, `overlapOK` is believed to hold for every well-formed input
-            # (not proved): on a real call both must hold — also on the two defect inputs
-            ctx.tie_broken("premise:cse_reduced", f"{'+'.join(k for k in ('input_ok', 'overlap_ok') if not c[k])} does not hold for the real call "
+        if src == "captured" and not (c["input_ok"] and c["shared_ok"]):
+            # `inputOK` is a fact about the output of stage 2; `sharedOK` is not proved: on a real call both must hold
+            # — also on the documented defect inputs (which fail exactly one other part)
+            ctx.tie_broken("premise:cse_reduced", f"{'+'.join(k for k in ('input_ok', 'shared_ok') if not c[k])} does not hold for the real call "
                            f"cse({render_forest(rec['roots'])!r}, cse_concat={rec['cse_concat']}, cse_in_brackets={rec['cse_in_brackets']})")
         if not c["check"]:
             why = [k for k in ("wf", "used_ok", "pairs_ok") if not c[k]]
